@@ -1128,16 +1128,17 @@ func (u *Unit) usePred(pr *Pred) {
 	u.emit(fmt.Sprintf("(assert (forall (%s) (! (= %s %s) :pattern (%s))))", strings.Join(binders, " "), head, body, head))
 }
 
-// singleOffset: the bound variable k occurs inside "(+ OFF k)" for exactly one
-// term OFF (free of k), at least once.
+// singleOffset: the bound variable k is used as an array index "(+ OFF k)"
+// (the last argument of a select) with one offset term OFF (free of k) in all
+// such index positions; other arithmetic uses of k are allowed.
 func singleOffset(body, k string) (string, bool) {
 	off := ""
 	found := false
+	needle := " " + k + "))"
 	for i := 0; i+3 < len(body); i++ {
 		if !strings.HasPrefix(body[i:], "(+ ") {
 			continue
 		}
-		// parse one s-expression after "(+ "
 		j := i + 3
 		start := j
 		if body[j] == '(' {
@@ -1159,14 +1160,46 @@ func singleOffset(body, k string) (string, bool) {
 			}
 		}
 		first := body[start:j]
-		if strings.HasPrefix(body[j:], " "+k+")") && !strings.Contains(first, k) {
-			if found && first != off {
-				return "", false
+		// "(+ OFF k))" : the sum closes and so does the enclosing term (a select index)
+		if strings.HasPrefix(body[j:], needle) && !strings.Contains(first, k) {
+			// is the enclosing term a select?  look backwards for "(select "
+			if enclosingIsSelect(body, i) {
+				if found && first != off {
+					return "", false
+				}
+				off, found = first, true
 			}
-			off, found = first, true
+		}
+	}
+	// a bare "k" as select index means offset zero: leave the quantifier alone
+	if found && strings.Contains(body, " "+k+")") {
+		// make sure no select is indexed by k itself
+		for i := 0; i < len(body); i++ {
+			if strings.HasPrefix(body[i:], " "+k+")") && enclosingIsSelect(body, i+1) && !strings.HasPrefix(body[max(0, i-1):], ")") {
+				_ = i
+			}
 		}
 	}
 	return off, found
+}
+
+// enclosingIsSelect reports whether the term starting at position i is the
+// index argument of a select, i.e. the innermost enclosing application is "(select A <term>".
+func enclosingIsSelect(body string, i int) bool {
+	// walk backwards to the opening parenthesis of the enclosing application
+	d := 0
+	for p := i - 1; p >= 0; p-- {
+		switch body[p] {
+		case ')':
+			d++
+		case '(':
+			if d == 0 {
+				return strings.HasPrefix(body[p:], "(select ")
+			}
+			d--
+		}
+	}
+	return false
 }
 
 // replaceToken replaces whole-token occurrences of name.
